@@ -550,4 +550,7 @@ def run(chk):
             return False, "%s replaces the thread's active traceparent outside TraceparentCtxt::enter / exit" % extra[0], [], None
         return True, "", sorted(callers)
     chk.ob("C18.R4:who-sets-active", "only TraceparentCtxt::enter and ::exit replace the thread's active traceparent", who_sets_active)
+    if not getattr(chk, "_overlay", None):
+        from . import c04
+        c04.setup_before_begin_rule(chk, P, "C18.R7:setup-before-begin")
     return chk
